@@ -11,7 +11,13 @@ def sh(cmd, cwd=None, timeout=3600):
 res = {}
 for d in sorted(glob.glob(os.path.join(ROOT, 'seeded', '*'))):
     sid = os.path.basename(d)
-    if sys.argv[1:] and not any(sid.startswith(a) for a in sys.argv[1:]):
+    args = [a for a in sys.argv[1:] if not a.startswith('--')]
+    if args and not any(sid.startswith(a) for a in args):
+        continue
+    if '--old-rounds' in sys.argv and ('-r3-' in sid or '-r4-' in sid):
+        continue
+    if os.path.exists(os.path.join(ROOT, 'regress.json')) and sid in json.load(open(os.path.join(ROOT, 'regress.json'))):
+        res[sid] = json.load(open(os.path.join(ROOT, 'regress.json')))[sid]
         continue
     m = json.load(open(os.path.join(d, 'meta.json')))
     if not m.get('confirmed'):
